@@ -57,6 +57,26 @@ func c09Run(s *c09Scn, segName string) verdict {
 		caps = append([]string{cap11}, caps...)
 	}
 
+	// the model's prefix "nc" stands for any namespace prefix a server may choose; the spelling is picked from the cell
+	// (letters, digits, underscore: ElementTree's ns0, libnetconf's nc, generated n1 / nc_base)
+	if s.Prefix == "nc" {
+		spell := []string{"nc", "ns0", "n1", "nc_base", "NC"}
+		h := len(s.Layout)*7 + len(s.Extra)*3 + len(s.Sid) + len(s.Pref)*5 + len(s.Tail)
+		if s.Adv10 {
+			h += 11
+		}
+
+		if s.Adv11 {
+			h += 13
+		}
+
+		if s.Echo {
+			h++
+		}
+
+		s.Prefix = spell[h%len(spell)]
+	}
+
 	hello := simdev.HelloXML(caps, s.Sid, s.Prefix, s.Layout != "oneline", s.Layout == "decl")
 	if s.Tail == "nl" {
 		hello += "\n"
